@@ -122,3 +122,12 @@ for _p in ("C02", "C03", "C04", "C05", "C11", "C12"):
 
 # C12: the twins must report equal counts after concurrent use (quiescent Size/Count exactness on the twin flavours)
 PLANS["C12"]["jobs"] = multi(PLANS["C12"]["jobs"], simple("sizeq", (120, 0), (6000, 0), stripes_q=4))
+
+
+# same-key operation pairs, enumerated (oppair): first call parked at each of its steps, second call runs, porcupine on the tiny history
+def oppair_jobs(tier, cores):
+    return striped("oppair", 1, 0, 8)
+
+
+for _p in ("C01", "C02", "C03", "C04", "C05", "C06", "C09", "C12"):
+    PLANS[_p]["jobs"] = multi(PLANS[_p]["jobs"], oppair_jobs)
